@@ -19,7 +19,7 @@ fn alphabet(quick: bool) -> Vec<isize> {
       v.push(n);
       v.push(-n);
     }
-    for n in [25, 100, 1237] {
+    for n in [25, 100, 235, 236, 470, 1237] {
       v.push(n);
       v.push(-n);
     }
@@ -74,8 +74,10 @@ fn check_lun(ctx: &Ctx, t: &LunTable, i: usize, alpha: &[isize], loc: &mut Local
       );
     }
   }
-  // stepping
-  for &n in alpha {
+  // stepping (quick tier: the multi-decade steps only from every 5th lunation)
+  let big: [isize; 4] = [235, -235, 1237, -1237];
+  let quick_big = alpha.len() < 20 && i % 5 == 0;
+  for &n in alpha.iter().chain(big.iter().filter(|_| quick_big)) {
     let j = i as isize + n;
     if j < 0 || j as usize >= t.l.len() {
       continue;
